@@ -39,9 +39,10 @@ CLAIMED = {
          "computes value, dimension and type from its own bookkeeping and the SI table.",
          "DESIGN.md 5 (C02), 10",
          "Normalised definitions are represented by their denotation (that Term.normalized computes it is C07). "
-         "That the result TYPE has exactly the combined dimension is proved as far as 'one type per dimension' "
-         "(C15_one_class_per_dimension) and 'the result unit's definition denotes the product'; the link "
-         "'definition of a unit denotes its type's dimension' is validated by the correspondence and oracle, not proved."),
+         "Also proved for every reachable directory: the result TYPE has exactly the combined dimension "
+         "(invariant 'the definition of every unit denotes its type's dimension'), and UndefinedResultError "
+         "PRECISELY when no declared type has the combined dimension (no type => resolution fails; a type whose "
+         "reference unit has that definition, or a unit defined by the term => resolution succeeds)."),
  'C03': ("Axiom-free Coq theorems: mixed types -> IncompatibleUnitsError / == False, numbers -> "
          "TypeError, sum has the left unit and exactly the sum of reference values (also on the "
          "shared grid of quantized types), commutativity, associativity, inverse, distributivity, "
